@@ -274,7 +274,9 @@ func (e *Envelope) Extract() interface{} {
 // current envelope contents, if possible.
 func (e *Envelope) Correct(opts ...schema.Option) (*Envelope, error) {
 	if e.Head != nil && len(e.Head.Stamps) > 0 {
-		opts = append(opts, head.WithHead(e.Head))
+		// not into the caller's list: it may have room to spare and be in
+		// use for another envelope at this very moment
+		opts = append(append(make([]schema.Option, 0, len(opts)+1), opts...), head.WithHead(e.Head))
 	}
 
 	nd, err := e.Document.Clone()
